@@ -232,7 +232,7 @@ def main(tier, seed):
     cov["rule"] = ("event counts 0-2 (thorough: 3, 9) x bus width 1-3, 8 x alignment 0-2 x trigger modes x attachment "
                    "(decoder / connect() / direct); CSR-conforming driver (idle, unmapped, start/continue/abandon read, write, "
                    "read+write) x every source vector per cycle")
-    return finish(PID, tier, seed, "model_checking", cov, ASSUMPTIONS, t0, results)
+    return finish(PID, tier, seed, "model_checking", cov, ASSUMPTIONS, t0, results, min_explored=int(0.9 * len(results)))
 
 
 ASSUMPTIONS = [
